@@ -9,7 +9,9 @@ import time
 import traceback
 
 
-class HarnessError(Exception):
+class HarnessError(BaseException):
+    """A fault of the harness itself (never a verdict about the library).  BaseException, so that the many
+    `except Exception` blocks that turn a raising LIBRARY call into a `raised` violation cannot swallow it."""
     pass
 
 
